@@ -40,8 +40,8 @@ UNIT = Unit(
            requires=[C("wf", "old(self).coins.wf() && (spec_tip906(*old(self)) ==> counts_ok(old(self).coins@))"),
                      C("fits", "(old(self).fee_pool.0 >> 16) + old(self).tips.0 <= u128::MAX", note="C09 envelope: fee pool + tips fit in u128")],
            ensures=[C("reward", """exists|d: CoinDataHeight| is_reward_cdh(*old(self), action, d)
-                        && #[trigger] view_insert(old(self).coins@, spec_proposer_reward(old(self).height), d, spec_tip906(*old(self))) == final(self).coins@""", "C05", "C01"),
-                    C("pool", "final(self).fee_pool.0 == old(self).fee_pool.0 - (old(self).fee_pool.0 >> 16) && final(self).tips.0 == 0", "C05", "C01"),
+                        && #[trigger] view_insert(old(self).coins@, spec_proposer_reward(old(self).height), d, spec_tip906(*old(self))) == final(self).coins@""", "C05", "C01", "C06"),
+                    C("pool", "final(self).fee_pool.0 == old(self).fee_pool.0 - (old(self).fee_pool.0 >> 16) && final(self).tips.0 == 0", "C05", "C01", "C06", "C08"),
                     C("frame", """final(self).network == old(self).network && final(self).height == old(self).height && final(self).history == old(self).history
                         && final(self).transactions == old(self).transactions && final(self).fee_multiplier == old(self).fee_multiplier
                         && final(self).dosc_speed == old(self).dosc_speed && final(self).pools == old(self).pools && final(self).stakes == old(self).stakes""", "C05", "C17"),
@@ -50,7 +50,7 @@ UNIT = Unit(
         Fn(S, "apply_proposer_action", impl="UnsealedState", home="C05", implicit_props=("C09", "C05", "C17"),
            requires=[C("wf", "old(self).coins.wf() && (spec_tip906(*old(self)) ==> counts_ok(old(self).coins@))"),
                      C("fits", "(old(self).fee_pool.0 >> 16) + old(self).tips.0 <= u128::MAX")],
-           ensures=[C("applied", "proposer_applied(*old(self), action, after_tip_901, *final(self))", "C05", "C17", "C01"),
+           ensures=[C("applied", "proposer_applied(*old(self), action, after_tip_901, *final(self))", "C05", "C17", "C01", "C06", "C08"),
                     C("wf", "final(self).coins.wf()", "C20")]),
         Raw("pub mod melmint { pub use super::*; }"),
         Fn("src/state/melmint.rs", "preseal_melmint", mode="assume", **mm_preseal()),
@@ -100,14 +100,16 @@ UNIT = Unit(
         Fn(S, "from_block", impl="SealedState", home="C08", implicit_props=("C09", "C08"),
            requires=[C("store", "novasmt_db::db_has(*db, blk.header.coins_hash.0) && novasmt_db::db_has(*db, blk.header.history_hash.0) && novasmt_db::db_has(*db, blk.header.pools_hash.0)",
                        note="the content-addressed store holds the three trees the header commits to"),
-                     C("no_tips", "forall|s: SealedState<C>| is_block_of(s, *blk) ==> (#[trigger] s.0).tips.0 == 0", envelope_of="F-C08-tips")],
+                     C("no_tips", "forall|s: SealedState<C>| is_block_of(s, *blk) && s.1 is None ==> (#[trigger] s.0).tips.0 == 0", envelope_of="F-C08-tips")],
            ensures=[C("fields", """res.0.network == blk.header.network && res.0.height == blk.header.height && res.0.fee_pool == blk.header.fee_pool
                         && res.0.fee_multiplier == blk.header.fee_multiplier && res.0.dosc_speed == blk.header.dosc_speed && res.0.tips.0 == 0 && res.0.stakes == *stakes && res.1 == blk.proposer_action
                         && spec_root_coins(res.0.coins@) == blk.header.coins_hash && spec_root_smt(res.0.history@) == blk.header.history_hash && spec_root_smt(res.0.pools@) == blk.header.pools_hash""", "C08"),
-                    C("restart", "forall|s: SealedState<C>| is_block_of(s, *blk) && *stakes == s.0.stakes ==> same_views(res.0, #[trigger] s.0) && res.1 == s.1", "C08")],
+                    C("restart", "forall|s: SealedState<C>| is_block_of(s, *blk) && sealed_ok(s) && *stakes == s.0.stakes ==> same_views(res.0, #[trigger] s.0) && res.1 == s.1", "C08",
+                      note="sealed_ok (a state sealed with a proposer action has no pending tips) is established by seal's clause action_tips and by from_block's own clause sealed"),
+                    C("sealed", "sealed_ok(res)", "C08")],
            rewrites=[("ANF", "collect", 0, 3, {})],
            injects=[Inject("before_tail", """proof { broadcast use axiom_root_smt_inj, axiom_root_coins_inj;
-               assert forall|s: SealedState<C>| is_block_of(s, *blk) && *stakes == s.0.stakes implies same_views(state, #[trigger] s.0) by {
+               assert forall|s: SealedState<C>| is_block_of(s, *blk) && sealed_ok(s) && *stakes == s.0.stakes implies same_views(state, #[trigger] s.0) by {
                    let m = s.0.transactions@;
                    assert forall|h: TxHash| state.transactions@.contains_key(h) <==> m.contains_key(h) by {
                        if state.transactions@.contains_key(h) { let i = choose|i: int| 0 <= i < __c1@.len() && spec_txhash(#[trigger] __c1@[i]) == h;
